@@ -4,9 +4,9 @@
      common disjoint part.
    * lc_LT / lc_EQ on labels (distance, edge count, set): lexicographic; strict total order up to lc_EQ.
    * lc_good: the set is sorted and has edge count + 1 elements (labels of simple paths).  On good labels the
-     coded comparison LexDistanceCompare (lx_ltb) IS lc_LT (lc_ltb_LT).  [On labels of different cardinality the
-     coded third stage is a different, non-transitive relation; it is never evaluated on such labels at equal
-     distance and count.]
+     coded comparison LexDistanceCompare (lx_ltb) IS lc_LT (lc_ltb_LT).  [On sets of different cardinality the
+     coded third stage is a different relation (a proper subset counts as smaller); the proofs only use the coded
+     comparison on good labels, where at equal count the two sets have the same cardinality.]
    * shared vocabulary of the path theory: lc_pl (label of a walk), lc_shortest, lc_lexmin, lc_rev.
    Prefix lc_. *)
 From Coq Require Import List Arith Bool Lia ZArith Permutation Sorted.
